@@ -28,6 +28,7 @@ from .gwdriver import parse_write
 
 KEYMAP = {"k1": (0, 0), "k2": (0, 1), "k3": (1, 0), "k4": (1, 1)}  # key -> (child, value type) on node 1
 NODE = 1
+AWAKE = 2   # senders named d* address this node, which is not sleeping: their send suspends in its own write
 
 
 class GateTransport(Transport):
@@ -87,11 +88,11 @@ class Execution:
         self.tr.gated = True
 
     async def _send(self, key: str, val: str) -> None:
-        c, t = KEYMAP[key]
+        node, (c, t) = (AWAKE, (0, 0)) if key.startswith("d") else (NODE, KEYMAP[key])
         sid = next(self.ids)
-        self.events.append({"e": "send_start", "id": sid, "n": NODE, "c": c, "t": t, "v": val, "ack": 0, "cmd": 1})
-        await self.gw.send(Message(NODE, c, 1, 0, t, val))
-        self.events.append({"e": "send_end", "id": sid, "n": NODE, "c": c, "t": t, "v": val, "ack": 0, "cmd": 1})
+        self.events.append({"e": "send_start", "id": sid, "n": node, "c": c, "t": t, "v": val, "ack": 0, "cmd": 1})
+        await self.gw.send(Message(node, c, 1, 0, t, val))
+        self.events.append({"e": "send_end", "id": sid, "n": node, "c": c, "t": t, "v": val, "ack": 0, "cmd": 1})
 
     async def _sender(self, name: str) -> None:
         for key, val in self.plan[name]:
@@ -229,9 +230,10 @@ def explore(job) -> list[dict]:
 # ---------------------------------------------------------------------------------------
 
 
-def model_schedules(workdir: str, keys: str, senders: str, maxsends: int) -> tuple[list, dict]:
+def model_schedules(workdir: str, keys: str, senders: str, maxsends: int, direct: str = "D0") -> tuple[list, dict]:
     cfg = open(os.path.join(workdir, "MC_race.cfg")).read()
     cfg = cfg.replace("Keys <- K3", f"Keys <- {keys}").replace("Senders <- S2", f"Senders <- {senders}")
+    cfg = cfg.replace("DirectSenders <- D1", f"DirectSenders <- {direct}")
     cfg = cfg.replace("MaxSends = 1", f"MaxSends = {maxsends}")
     with open(os.path.join(workdir, "MC_race_run.cfg"), "w") as fil:
         fil.write(cfg)
@@ -266,6 +268,11 @@ def concretise(s: dict, proto: str) -> tuple:
             sched.append(("release", "listener"))
         elif a == "FinalWake":
             pass
+        elif a[0] == "SBegin":
+            plan.setdefault(a[1], []).append((a[1], f"{a[1]}-1"))
+            sched.append(("start", a[1]))
+        elif a[0] == "SEnd":
+            sched.append(("release", a[1]))
         else:
             _, name, key = a
             plan.setdefault(name, []).append((key, f"{name}-{len(plan.get(name, [])) + 1}"))
@@ -314,6 +321,10 @@ def check(prop: str) -> int:
         keys, senders, ms = ("K3", "S2", 1) if tier == "quick" else ("K3", "S3", 1)
         scheds, summ = model_schedules(workdir, keys, senders, ms)
         rep.add_tlc(f"MC_race Keys={keys} Senders={senders} PopMode=identity", summ, {"schedules_emitted": len(scheds)})
+        # with a sender that addresses an awake node (its send suspends in its own write)
+        scheds2, summ2 = model_schedules(workdir, "K2", "S2" if tier == "thorough" else "S1", 1, direct="D1")
+        rep.add_tlc("MC_race with a direct sender (awake destination)", summ2, {"schedules_emitted": len(scheds2)})
+        scheds = scheds + scheds2
         protos = ["2.0", "2.2"] if tier == "quick" else ["2.0", "2.1", "2.2"]
         jobs = []
         seen = set()
@@ -345,6 +356,8 @@ def check(prop: str) -> int:
                 for proto in protos[:1]:
                     ejobs.append((proto, init, {"s1": [(init[0], "s1-1"), (init[0], "s1-2")], "s2": [(init[0], "s2-1")]}, 4000))
                     ejobs.append((proto, init, {"s1": [(init[0], "s1-1")], "s2": [(init[0], "same")], "s3": [(init[0], "same")]}, 4000))
+                    # one sender addresses the awake node: its write suspends like the listener's
+                    ejobs.append((proto, init, {"s1": [(init[0], "s1-1")], "d1": [("d1", "d1-1")]}, 4000))
                     # a sender re-sends exactly the value the node last reported
                     ejobs.append((proto, init, {"s1": [(init[0], "reported")], "s2": [(init[-1], "s2-1")]}, 4000))
             for part in pool.map(explore, ejobs, chunksize=1):
